@@ -128,9 +128,9 @@ func navProgram(r *prng.Rand) drive.Program {
 		}
 		d.K = r.Intn(4)
 		if refuseRate > 0 && r.Chance(1, refuseRate) {
-			d.Refused = 1 << uint(r.Intn(5))
+			d.Refused = 1 << uint(r.Intn(6))
 			if r.Chance(1, 4) {
-				d.Refused |= 1 << uint(r.Intn(5))
+				d.Refused |= 1 << uint(r.Intn(6))
 			}
 		}
 		p.Decisions = append(p.Decisions, d)
